@@ -69,7 +69,7 @@ def task(ctx):
     ex = Exec(ctx, summaries=dict(layer1.SUMMARIES), module_consts=engine.module_constants(F), loop_specs={1: outer, 2: inner}, fname=QUAL)
     me = verify.mk_circuit(ex, st0, "self")
     g0 = st0.g(me)
-    flag = ctx.fresh("inputs", z3.BoolSort())
+    flag = verify.note_arg(ex, "inputs", ctx.fresh("inputs", z3.BoolSort()))
     holder.update(me=me, g0=g0, flag=flag)
     st0.pc.append(spec.typed(ctx, g0))
     st0.pc.append(spec.wired_edges(ctx, g0))
